@@ -298,9 +298,11 @@ inductive DiagArg (α : Type) where
 def DiagArg.fn : DiagArg α → Nat → α
   | .full d => d | .const c => fun _ => c | .scalar c => fun _ => c
 
-/-- the DiagLinearOperator that base / Kronecker / LowRankRoot `add_diagonal` build. -/
+/-- the DiagLinearOperator that base / Kronecker / LowRankRoot `add_diagonal` build.  The code tests
+`diag.shape[-1] != 1`: a full diagonal of a 1×1 operator has length 1 and therefore takes the constant branch. -/
 def DiagArg.toOp (n : Nat) : DiagArg α → Op α
-  | .full d => .diag n d | .const c => .constDiag n c | .scalar c => .constDiag n c
+  | .full d => if n = 1 then .constDiag n (d 0) else .diag n d
+  | .const c => .constDiag n c | .scalar c => .constDiag n c
 
 /-- `DiagLinearOperator.add_diagonal` (always a plain DiagLinearOperator). -/
 def diagAddDiagonal (a : Op α) (g : DiagArg α) : Except Err (Op α) :=
@@ -406,7 +408,8 @@ where
     else if b.isKron then .ok (.sumKron a b)
     else if b.isDiag then
       if a.rows ≠ a.cols then .error .notSupported
-      else mkAddedDiag .kron a (.diag a.rows b.diagOf)
+      -- self.add_diagonal(other._diagonal()): a length-1 diagonal (1×1 operands) takes the constant branch
+      else mkAddedDiag .kron a ((DiagArg.full b.diagOf).toOp a.rows)
     else baseAdd a b
 
 /-! ### multiplication by a constant (`mul` with a scalar → `_mul_constant`) -/
